@@ -70,3 +70,15 @@ Theorem rule_count_exact : forall oracle items s,
   length (c_rules s') + length (c_ignored s') = length (c_rules s) + length (c_ignored s) + count_rules items.
 Proof. exact AccountingProofs.rule_count_exact. Qed.
 Print Assumptions rule_count_exact.
+
+(* the hypothesis "an aborted rule carries an error" of ast_no_rule_lost: cst2ast.rs aborts without
+   an error on record at exactly one site (the kind test of Builder::begin), reachable only if
+   the grammar produces a CST shape the builder does not walk; the (grammar, builder) pair is the
+   reviewed one (Compiler/CstAgreement.v) *)
+From YV Require Import Compiler.CstAgreement.
+Theorem one_silent_abort_site : silent_abort_sites = 1.
+Proof. exact AccountingProofs.one_silent_abort_site. Qed.
+Print Assumptions one_silent_abort_site.
+Theorem cst_shape_pinned : cst_shape_digest = pinned_cst_shape.
+Proof. exact AccountingProofs.cst_shape_pinned. Qed.
+Print Assumptions cst_shape_pinned.
